@@ -69,6 +69,11 @@ func c04Prop(st *CaseStats, fam int) func(t *rapid.T) {
 				t.Fatalf("case %s %s:\n  WriteTo into the caller's bufio.Writer(%d) returned %d; after the owner's Flush %d bytes arrived, the file has %d bytes", sc, c.Desc, size, n, len(other), len(bs))
 			}
 		}
+		if len(bs) < 1<<20 && rapid.IntRange(0, 3).Draw(t, "keptWriter") == 0 {
+			if err := keptWriterPersists(c.Seg, bs); err != nil {
+				t.Fatalf("case %s %s:\n  %v", sc, c.Desc, err)
+			}
+		}
 		mem, err := LoadMem(bs)
 		if err != nil {
 			t.Fatalf("case %s %s: loading memory-backed: %v", sc, c.Desc, err)
